@@ -1179,6 +1179,21 @@ class Builder:
     def _build_cmds_two_qubit(
         self, instr: GenericInstr, control_qubit_id: int, target_qubit_id: int
     ) -> None:
+        # The NV transpiler routes a gate between two carbons (virtual IDs other than 0)
+        # through the electron (virtual ID 0): it swaps one carbon's state into the
+        # electron and back. If no qubit holds ID 0, the electron is not allocated in
+        # the unit module, so it is reserved for the duration of the gate.
+        borrow_electron = (
+            self._compiler == NVSubroutineTranspiler
+            and instr in (GenericInstr.CNOT, GenericInstr.CPHASE)
+            and not isinstance(control_qubit_id, Future)
+            and not isinstance(target_qubit_id, Future)
+            and control_qubit_id != 0
+            and target_qubit_id != 0
+            and not self._mem_mgr.is_qubit_id_used(0)
+        )
+        if borrow_electron:
+            self._build_cmds_new_qubit(qubit_id=0)
         register1 = self._get_qubit_register(0)
         self._build_cmds_set_register_value(register1, control_qubit_id)
         register2 = self._get_qubit_register(1)
@@ -1188,6 +1203,8 @@ class Builder:
             operands=[register1, register2],
         )
         self.subrt_add_pending_command(qubit_command)
+        if borrow_electron:
+            self._build_cmds_qfree(qubit_id=0)
 
     def _build_cmds_move_qubit(self, source: int, target: int) -> None:
         # Moves a qubit from one position to another (assumes that target is free)
